@@ -1441,7 +1441,9 @@ class GroupBy:
 
             arr_len = lengths.pop()
 
-            could_be_non_reduce = arr_len == (len(self) if mask is None else mask.sum())
+            # rows with a null key belong to no group and are not part of the indexer
+            n_selected = len(indexer) if mask is None else mask[indexer].sum()
+            could_be_non_reduce = arr_len == n_selected
             could_be_fixed_length = arr_len % len(group_index) == 0
             if could_be_non_reduce and could_be_fixed_length:
                 # very unlikely for large data
